@@ -6,6 +6,7 @@ import DW.Generated.Tables
 import DW.Model.Dump
 import DW.Lemmas.Dump
 import DW.Lemmas.DumpSafe
+import DW.Props.C11
 
 namespace DW.Props.C03
 open DW
@@ -70,5 +71,43 @@ theorem C03_json_safe_example :
     wellKeyed (.inst { name := "K".toList, fields := [{ name := "a".toList }, { name := "rest".toList, isCatchAll := true }] }
       [("a".toList, .seq .list [.int 1, .none]), ("rest".toList, .map .dict [(.str "x".toList, .tuple [.bool true])])]) = true := by
   decide
+
+/-! ### what the generated code returns is JSON-safe -/
+
+open DW.GenDump in
+/-- **C03 (the generated dump function, JSON-safe).**  Combine the two joints of the chain: for any class `ci` (fields `fks` with their
+resolved keys, found by name), any travelling config, and any instance whose values are well keyed and whose skip comparisons do not
+raise — run the body `dump_func_for_dataclass` writes for the class (the text compared byte for byte with the library's output) in the
+environment the generator sets up, and apply `asdict` to the entries it emits: if that succeeds, every key / value pair obtained is
+accepted by the standard JSON encoder. -/
+theorem C03_generated_code_json_safe (p : Char → Bool) (std : Std) (cfg : Option MetaCfg) (ci : ClassInfo)
+    (fks : List (FieldInfo × S)) (vals : S → PyVal)
+    (hw : wellKeyed (.inst ci (fks.map (fun q => (q.1.name, vals q.1.name)))) = true)
+    (hfind : ∀ q ∈ fks, ci.fields.find? (fun f => f.name == q.1.name) = some q.1)
+    (Hd : ∀ q ∈ fks, ∃ b, defaultTest (effMeta ci.cmeta cfg) q.1 (vals q.1.name) = .ok b)
+    (Ho : ∀ q ∈ fks, ∃ b, ownCond (effMeta ci.cmeta cfg) q.1 (vals q.1.name) = .ok b)
+    (Hk : ∀ q ∈ fks, q.1.isCatchAll = false → q.1.dumpSkip = false → dumpKey (effMeta ci.cmeta cfg) q.1 = .ok q.2) :
+    ∃ out, run (envOf (effMeta ci.cmeta cfg) {} fks vals) (genBody p (ginOf (effMeta ci.cmeta cfg) fks)) =
+        .ok (out ++ tagEmits (ginOf (effMeta ci.cmeta cfg) fks)) ∧
+      ∀ body, realise std ((effMeta ci.cmeta cfg).marshalTimestamp.getD false) cfg vals out = .ok body →
+        jsonSafePairs body = true := by
+  obtain ⟨out, hrun, hdump⟩ := DW.Props.C11.C11_dump_model_realises_generated_code p std
+    ((effMeta ci.cmeta cfg).marshalTimestamp.getD false) cfg (effMeta ci.cmeta cfg) {} ci fks vals hfind Hd Ho Hk
+  refine ⟨out, hrun, ?_⟩
+  intro body hb
+  rw [← hdump] at hb
+  have hv : dumpV std false cfg (.inst ci (fks.map (fun q => (q.1.name, vals q.1.name)))) =
+      .ok (finishInst (effMeta ci.cmeta cfg) body) := by
+    rw [dumpV]
+    simp only [hb, bind, Except.bind, pure, Except.pure]
+  have hs := dumpV_safe std cfg false _ _ hw hv
+  unfold finishInst at hs
+  cases ht : (effMeta ci.cmeta cfg).tag with
+  | none => simpa [ht, jsonSafe] using hs
+  | some tg =>
+    simp only [ht, jsonSafe] at hs
+    rw [jsonSafePairs_append] at hs
+    simp only [Bool.and_eq_true] at hs
+    exact hs.1
 
 end DW.Props.C03
